@@ -107,6 +107,10 @@ class JoinableStringList:
         if (isinstance(item, type(self)) and (item.separable or not item_fits_in_line) and
                 len(item.items) > 1):
             line_, new_item = item._to_str(line=line, stop_on_continuation=True)
+            if new_item is None:
+                # All entries of item have been put on the line without any wrapping
+                # (a single chunk that is too long for any line, followed only by empty entries)
+                return line_, []
             if len(new_item.items) < len(item.items):
                 # If we have been able to put at least one entry from item on the line, we
                 # continue recursively:
